@@ -179,6 +179,7 @@ def gen_inclass(rng, knobs=None):
         return ins
 
     infallible = {}
+    rt_infallible = {}
 
     with_captures = rng.random() < kn.p_captures
 
@@ -218,6 +219,8 @@ def gen_inclass(rng, knobs=None):
         else:
             c = make_ctor("C%d" % i, t, names[:i], ty["lc"])
         infallible[t] = (not c.get("fallible")) and all(infallible[u] for (u, _) in c["ins"])
+        # infallible *while a request is served*: a singleton is built (and may fail) when the application state is built
+        rt_infallible[t] = ty["lc"] == "singleton" or ((not c.get("fallible")) and all(rt_infallible[u] for (u, _) in c["ins"]))
 
     # ---- error handlers: at most one specific handler per error type + maybe a custom pavex::Error handler
     status = 520
@@ -275,7 +278,8 @@ def gen_inclass(rng, knobs=None):
     def new_obs(avail_types):
         oid = "O%d" % counters["o"]
         counters["o"] += 1
-        cands = [t for t in avail_types if infallible[t] and spec["types"][t]["disc"] != "moved"]
+        # (an error observer may not need a fallible constructor - but a fallible *singleton* cannot fail at that point any more)
+        cands = [t for t in avail_types if rt_infallible.get(t, infallible[t]) and spec["types"][t]["disc"] != "moved"]
         ins = [(t, "ref") for t in rng.sample(cands, min(len(cands), rng.choice([0, 0, 1, 2])))]
         spec["obs"][oid] = {"ins": ins}
         return oid
